@@ -61,6 +61,36 @@ def check_types(ctx, config, w, expect_serde, counts):
                     attrs += f.get("attrs") or []
             bad = [a for a in attrs if a.get("path", "").split("::")[-1] == "serde"]
             ctx.ob("no-serde-attributes", inst, not bad, "#[serde(..)] attribute(s) on the generated item: %s" % bad, adt["span"])
+            # derive helper attributes are not retained in HIR, so customisations are detected on
+            # the expansion: (a) no cfg_attr trace on variants / fields, (b) the derived bodies call
+            # nothing of this crate and (c) the struct serializer is unconditional
+            traces = []
+            for v in adt["variants"]:
+                traces += [("variant " + v["name"], a) for a in (v.get("attrs") or []) if a.get("parsed") == "CfgAttrTrace"]
+                for f in v["fields"]:
+                    traces += [("field " + f["name"], a) for a in (f.get("attrs") or []) if a.get("parsed") == "CfgAttrTrace"]
+            ctx.ob("no-conditional-attributes", inst, not traces,
+                   "cfg_attr(..) on %s of the generated item: a serde helper attribute changes the representation" % sorted({t[0] for t in traces}), adt["span"])
+            scope_ser = "Serialize for %s>" % ty
+            scope_de = "Deserialize<'de> for %s>" % ty
+            custom = []
+            n_if = 0
+            for pth, bd in crate.bodies.items():
+                if scope_ser not in pth and scope_de not in pth:
+                    continue
+                for cnode in thirwalk.calls(bd.get("value")):
+                    f = cnode["fn"]
+                    fp = (f.get("resolved") or {}).get("path") or f["path"]
+                    local = f.get("local") or fp.startswith(crate.name + "::") or fp.startswith("<" + crate.name + "::")
+                    if local and "::_::<impl serde" not in fp and "::_::<impl serde" not in f["path"]:
+                        custom.append(f["path"])
+                if scope_ser in pth and pth.endswith("::serialize") and kind == "struct":
+                    cnt = [0]
+                    thirwalk.walk(bd.get("value"), lambda n: cnt.__setitem__(0, cnt[0] + (1 if n.get("k") == "if" else 0)))
+                    n_if += cnt[0]
+            ctx.ob("derive-not-customised", inst, not custom and n_if == 0,
+                   "the derived serde code of %s calls crate-local function(s) %s / contains %d conditional(s): a serde attribute (skip, default, with, ..) customises the representation"
+                   % (ty, sorted(set(custom)), n_if), adt["span"])
             sb = U.item_body(ser[0], "serialize")
             if sb is None:
                 ctx.fail("serialize-body", inst, "no body for the derived serialize", ser[0]["span"])
